@@ -48,14 +48,29 @@ func c11Profiles(quick bool) []*bworld.Profile {
 		JSONLog:     true,
 		Oracles:     []string{"C11"},
 	}
+	/* A terminal that takes chunks one at a time while the shell keeps
+	sending: a record must carry the chunk that was delivered, not whatever
+	was read since. */
+	slow := bworld.Profile{
+		Name:        "c11-slow-terminal",
+		OchCap:      0,
+		Starts:      []bworld.StartSpec{{Kind: "out", Key: "k", Max: 1}},
+		MaxAttempts: 1,
+		Outs:        []bworld.OutSpec{{Data: "<chunk#>"}, {Data: "<chunk#>", Err: "eof"}},
+		MaxOuts:     4,
+		Cancel:      true,
+		MaxConsume:  8,
+		JSONLog:     true,
+		Oracles:     []string{"C11"},
+	}
 	if quick {
 		mix.Shutdown = false
-		return []*bworld.Profile{&mix, &io}
+		return []*bworld.Profile{&slow, &mix, &io}
 	}
 	mix.MaxAttempts = 4
 	io.MaxAttempts = 3
 	io.Shutdown = true
-	return []*bworld.Profile{&mix, &io}
+	return []*bworld.Profile{&slow, &mix, &io}
 }
 
 // c11Payloads: every string of <=3 symbols over a JSON-hostile alphabet.
